@@ -20,7 +20,9 @@ import (
 	"crypto/x509"
 	"encoding/pem"
 	"fmt"
+	"sort"
 
+	"github.com/google/gce-tcb-verifier/cmd/output"
 	"github.com/google/gce-tcb-verifier/keys"
 	"github.com/google/gce-tcb-verifier/sign/transform"
 	styp "github.com/google/gce-tcb-verifier/sign/types"
@@ -90,8 +92,31 @@ func (ca *CertificateAuthority) PrimarySigningKeyVersion(context.Context) (strin
 
 // Finalize completes any unflushed changes that the given mutation represents. The mutation
 // object should be the same type as NewMutation returns.
-func (ca *CertificateAuthority) Finalize(context.Context, styp.CertificateAuthorityMutation) error {
-	return nil
+func (ca *CertificateAuthority) Finalize(ctx context.Context, mut styp.CertificateAuthorityMutation) error {
+	m, ok := mut.(*Mutation)
+	if !ok || len(m.replaced) == 0 || output.AllowOverwrite(ctx) {
+		return nil
+	}
+	// Like the storage-backed authority, never replace an existing certificate without overwrite
+	// permission: put the previous certificates back.
+	var names []string
+	for name, cert := range m.replaced {
+		ca.setCert(name, cert)
+		names = append(names, name)
+	}
+	m.replaced = nil
+	// The refused mutation must not leave the primary names pointing at keys it did not certify.
+	if m.previousRootName != nil {
+		ca.RootName = *m.previousRootName
+	}
+	if m.previousPrimarySigningKey != nil {
+		ca.PrimarySigningKey = *m.previousPrimarySigningKey
+	}
+	if output.AllowRecoverableError(ctx) {
+		return nil
+	}
+	sort.Strings(names)
+	return fmt.Errorf("--overwrite=false disallowed replacing certificates of %v", names)
 }
 
 // NewMutation returns an object that manages changes to the CA's persistent state.
@@ -102,26 +127,53 @@ func (ca *CertificateAuthority) NewMutation() styp.CertificateAuthorityMutation 
 // Mutation represents a memca.CertificateAuthority mutation.
 type Mutation struct {
 	ca *CertificateAuthority
+	// replaced holds the certificates this mutation replaced with different ones, by key name.
+	replaced map[string]*x509.Certificate
+	// The primary names before this mutation first changed them.
+	previousRootName          *string
+	previousPrimarySigningKey *string
+}
+
+func (m *Mutation) set(name string, cert *x509.Certificate) {
+	if old, ok := m.ca.getCert(name); ok && old != nil && cert != nil && !old.Equal(cert) {
+		if m.replaced == nil {
+			m.replaced = make(map[string]*x509.Certificate)
+		}
+		if _, seen := m.replaced[name]; !seen {
+			m.replaced[name] = old
+		}
+	}
+	m.ca.setCert(name, cert)
 }
 
 // SetPrimaryRootKeyVersion updates the mutation object to change the primary root key
 // version to the given one.
-func (m *Mutation) SetPrimaryRootKeyVersion(keyVersionName string) { m.ca.RootName = keyVersionName }
+func (m *Mutation) SetPrimaryRootKeyVersion(keyVersionName string) {
+	if m.previousRootName == nil {
+		previous := m.ca.RootName
+		m.previousRootName = &previous
+	}
+	m.ca.RootName = keyVersionName
+}
 
 // SetPrimarySigningKeyVersion updates the mutation object to change the primary signing key
 // version to the given one.
 func (m *Mutation) SetPrimarySigningKeyVersion(keyVersionName string) {
+	if m.previousPrimarySigningKey == nil {
+		previous := m.ca.PrimarySigningKey
+		m.previousPrimarySigningKey = &previous
+	}
 	m.ca.PrimarySigningKey = keyVersionName
 }
 
 // AddSigningKeyCert adds a certificate for the given keyVersionName to the CA.
 func (m *Mutation) AddSigningKeyCert(keyVersionName string, cert *x509.Certificate) {
-	m.ca.setCert(keyVersionName, cert)
+	m.set(keyVersionName, cert)
 }
 
 // SetRootKeyCert changes the CA's stored root certificate to cert.
 func (m *Mutation) SetRootKeyCert(cert *x509.Certificate) {
-	m.ca.setCert(m.ca.RootName, cert)
+	m.set(m.ca.RootName, cert)
 }
 
 // PrepareResources ensures all necessary resources are present for the CA to function. This is
